@@ -180,5 +180,63 @@ func TestVerifC11Shared(t *testing.T) {
 		out.Linef("stat shared_race_iterations %d", raceN)
 		out.Linef("end")
 		out.Flush()
+
+		// attach race: one instance is attached; a further instance attaches (Start with its own, slow, host) WHILE the component
+		// reports 1-3 alternating statuses from another goroutine. addSource is one atomic step (replay + registration under the
+		// wrapper's lock), so the execution is some sequential interleaving "k reports, attach, the rest"; with at most ringCap
+		// reported events C11_shared_delivery_partial says the late instance receives the same delivered sequence as the first one,
+		// whatever k is. A report that is neither replayed nor fanned out to the attaching instance shows as a shorter sequence.
+		out.Linef("case 3000001")
+		bad = 0
+		for it := 0; it < raceN; it++ {
+			var mu sync.Mutex
+			evs := map[*componentstatus.InstanceID][]componentstatus.Status{}
+			rep := NewReporter(func(id *componentstatus.InstanceID, ev *componentstatus.Event) {
+				mu.Lock()
+				evs[id] = append(evs[id], ev.Status())
+				mu.Unlock()
+			}, func(error) {})
+			m := sharedcomponent.NewMap[string, *verifComp]()
+			comp, _ := m.LoadOrStore("k", func() (*verifComp, error) { return &verifComp{}, nil })
+			id0, id1 := &componentstatus.InstanceID{}, &componentstatus.InstanceID{}
+			rep.ReportStatus(id0, componentstatus.NewEvent(componentstatus.StatusStarting))
+			_ = comp.Start(context.Background(), &verifHost{rep: rep, id: id0})
+			wrapper := comp.Unwrap().host.(componentstatus.Reporter)
+			nrep := 1 + it%3
+			var wg sync.WaitGroup
+			start := make(chan struct{})
+			wg.Add(2)
+			go func() {
+				defer wg.Done()
+				<-start
+				rep.ReportStatus(id1, componentstatus.NewEvent(componentstatus.StatusStarting))
+				_ = comp.Start(context.Background(), &verifHost{rep: rep, id: id1, slow: true})
+			}()
+			go func() {
+				defer wg.Done()
+				<-start
+				if it%4 >= 2 {
+					runtime.Gosched()
+				}
+				for j := 0; j < nrep; j++ {
+					st := componentstatus.StatusRecoverableError
+					if j%2 == 1 {
+						st = componentstatus.StatusOK
+					}
+					wrapper.Report(componentstatus.NewEvent(st))
+				}
+			}()
+			close(start)
+			wg.Wait()
+			if fmt.Sprint(evs[id0]) != fmt.Sprint(evs[id1]) && bad < 3 {
+				bad++
+				out.Linef("viol sig=C11/sharedcomponent/late-instance-missed-a-report-made-while-attaching iteration=%d reports=%d events=%s",
+					it, nrep, vHex(fmt.Sprint(evs[id0])+" | "+fmt.Sprint(evs[id1])))
+			}
+		}
+		out.Linef("nt")
+		out.Linef("stat shared_attach_race_iterations %d", raceN)
+		out.Linef("end")
+		out.Flush()
 	}
 }
